@@ -1,9 +1,17 @@
 /-
-C17 — Modules run once and expose exactly their exports.
+C17 — Modules run once and expose exactly their exports; an import path names what the source says.
 Theorems about `Model/Imports.lean`; no bound on the number of files, the length of the bodies, the
-number / order / form of imports, or the number of machine steps.
+length of import paths, the number / order / form of imports, or the number of machine steps.
+
+Run-once and exports (acyclic graphs): `C17_body_once`, `C17_importer_waits`, `C17_exports_exact`
+(+ `_whole`, `_symbol`), `C17_errors_not_exported`, `C17_errors_missing_module`, `C17_no_panic`.
+Packages (every graph): `C17_packages_constant` (loading a user module — named `std`, `io`, anything —
+registers no package), `C17_foreign_resolution` (`std.p` is the library's module or an import error,
+any other package name an import error, in every reachable state), `C17_self_resolution` (`self.p`
+is the file of path `p`, completed).  Source ties: `C17_package_writes_gen`, `C17_stdModules_gen`.
 -/
 import LaytheVerif.Lemmas.Imports
+import LaytheVerif.Gen.Packages
 namespace LaytheVerif.Imports
 
 /-! ### trace predicates -/
@@ -43,17 +51,13 @@ def Acyclic (g : Graph) (rank : Path → Nat) : Prop :=
   ∀ u ∈ units g, ∀ p ∈ importPaths u.2, p ≠ [] ∧
     ∀ q ∈ prefixes p, (g.file? q).isSome = true → rank q < rank u.1 ∨ (q = u.1 ∧ q ≠ p)
 
-/-- the code the theorems are about: the repaired tree walk, or the pinned one outside D19's signature -/
-def Envelope (fixed : Bool) (g : Graph) : Prop := fixed = true ∨ g.noD19 = true
-
 /-! ### the invariant (over the control skeleton only) -/
 
-structure Inv (fixed : Bool) (g : Graph) (rank : Path → Nat) (I : Path → Option (Path × Bool))
+structure Inv (g : Graph) (rank : Path → Nat) (I : Path → Option (Path × Bool))
     (frames : List Frame) (cache : List (Path × Path)) (log : List Event) : Prop where
   root : (I []).isSome = true
   posFile : ∀ p f d, I p = some (f, d) → f = p
   isFile : ∀ p, (I p).isSome = true → p ≠ [] → (g.file? p).isSome = true
-  shape : fixed = false → ∀ p, (I p).isSome = true → p = [] ∨ pathOk p = true
   prefixClosed : ∀ p x, (I (p ++ [x])).isSome = true → (I p).isSome = true
   frameMod : ∀ fr ∈ frames, ∃ f, I fr.mod = some (f, false)
   notDone : ∀ p f, I p = some (f, false) → p ∈ frames.map (·.mod)
@@ -96,6 +100,7 @@ theorem mem_importPaths_expand (body : List Stmt) (p : Path) (h : p ∈ importPa
     | declAcc _ _ _ => simpa [expand, importPaths, Stmt.importPath?] using ih (by simpa [expand, importPaths, Stmt.importPath?] using h)
     | assign _ _ => simpa [expand, importPaths, Stmt.importPath?] using ih (by simpa [expand, importPaths, Stmt.importPath?] using h)
     | emit _ _ => simpa [expand, importPaths, Stmt.importPath?] using ih (by simpa [expand, importPaths, Stmt.importPath?] using h)
+    | importPkg _ _ _ => simpa [expand, importPaths, Stmt.importPath?] using ih (by simpa [expand, importPaths, Stmt.importPath?] using h)
 
 /-- every import path of the body of `me` belongs to a unit of the graph with path `me` -/
 theorem body_unit (g : Graph) (me p : Path) (h : p ∈ importPaths (g.body me)) :
@@ -122,15 +127,6 @@ theorem prefixes_ne_nil (p q : Path) (h : q ∈ prefixes p) : q ≠ [] := by
     simp only [prefixes, List.mem_cons, List.mem_map] at h
     rcases h with rfl | ⟨r, _, rfl⟩ <;> simp
 
-theorem prefixes_pathOk (p q : Path) (hp : pathOk p = true) (h : q ∈ prefixes p) : pathOk q = true := by
-  match p, hp with
-  | [a], _ => simp [prefixes] at h; simp [h, pathOk]
-  | [a, b], hab =>
-    simp [prefixes] at h
-    rcases h with rfl | rfl
-    · simp [pathOk]
-    · exact hab
-
 theorem self_mem_prefixes (p : Path) (h : p ≠ []) : p ∈ prefixes p := by
   induction p with
   | nil => exact absurd rfl h
@@ -143,16 +139,15 @@ theorem self_mem_prefixes (p : Path) (h : p ≠ []) : p ∈ prefixes p := by
 
 /-! ### preservation, case by case -/
 
-variable {fixed : Bool} {g : Graph} {rank : Path → Nat} {I : Path → Option (Path × Bool)}
+variable {g : Graph} {rank : Path → Nat} {I : Path → Option (Path × Bool)}
   {frames : List Frame} {cache : List (Path × Path)} {log : List Event}
 
 /-- the running fiber advances (its module is unchanged, the remaining body is a suffix) -/
-theorem Inv.advance (h : Inv fixed g rank I (fr :: rest) cache log) (more : List Stmt) (hs : more <:+ fr.body) :
-    Inv fixed g rank I ({ fr with body := more } :: rest) cache log where
+theorem Inv.advance (h : Inv g rank I (fr :: rest) cache log) (more : List Stmt) (hs : more <:+ fr.body) :
+    Inv g rank I ({ fr with body := more } :: rest) cache log where
   root := h.root
   posFile := h.posFile
   isFile := h.isFile
-  shape := h.shape
   prefixClosed := h.prefixClosed
   frameMod := by
     intro fr' hfr'
@@ -179,8 +174,8 @@ theorem Inv.advance (h : Inv fixed g rank I (fr :: rest) cache log) (more : List
   bindOk := h.bindOk
 
 /-- `module_cache.insert(resolved, module)` for a completed module found in the tree -/
-theorem Inv.cacheInsert (h : Inv fixed g rank I frames cache log) (k : Path) (f : Path) (hk : I k = some (f, true)) :
-    Inv fixed g rank I frames ((k, k) :: cache) log :=
+theorem Inv.cacheInsert (h : Inv g rank I frames cache log) (k : Path) (f : Path) (hk : I k = some (f, true)) :
+    Inv g rank I frames ((k, k) :: cache) log :=
   { h with
     cacheOk := by
       intro k' pos hl
@@ -192,9 +187,9 @@ theorem Inv.cacheInsert (h : Inv fixed g rank I frames cache log) (k : Path) (f 
       · exact h.cacheOk k' pos hl }
 
 /-- a binding event for a completed module is logged -/
-theorem Inv.logBound (h : Inv fixed g rank I frames cache log) (ev : Event) (pos f : Path)
+theorem Inv.logBound (h : Inv g rank I frames cache log) (ev : Event) (pos f : Path)
     (hev : ev.boundPos? = some pos) (hdone : I pos = some (f, true)) :
-    Inv fixed g rank I frames cache (ev :: log) := by
+    Inv g rank I frames cache (ev :: log) := by
   have hfin : Event.finish pos ∈ log := (h.logFinish pos).mpr ⟨f, hdone⟩
   have hns : ∀ f p, ev ≠ Event.start f p := by
     intro f p he; subst he; simp [Event.boundPos?] at hev
@@ -226,10 +221,10 @@ theorem Inv.logBound (h : Inv fixed g rank I frames cache log) (ev : Event) (pos
       cases ev <;> simp [Event.boundPos?] at hev <;> subst hev <;> exact hfin }
 
 /-- the running fiber's body is exhausted: it completes and its parent resumes -/
-theorem Inv.pop (h : Inv fixed g rank I (fr :: rest) cache log)
+theorem Inv.pop (h : Inv g rank I (fr :: rest) cache log)
     (I' : Path → Option (Path × Bool))
     (hI' : ∀ p, I' p = if p = fr.mod then (I p).map (fun x => (x.1, true)) else I p) :
-    Inv fixed g rank I' rest cache (.finish fr.mod :: log) := by
+    Inv g rank I' rest cache (.finish fr.mod :: log) := by
   obtain ⟨f0, hf0⟩ := h.frameMod fr (List.mem_cons_self ..)
   have hsome : ∀ p, (I' p).isSome = (I p).isSome := by
     intro p; rw [hI']; split <;> simp
@@ -254,7 +249,6 @@ theorem Inv.pop (h : Inv fixed g rank I (fr :: rest) cache log)
           exact hp.1 ▸ h.posFile p f' d' hI
       · exact h.posFile p f d hp
     isFile := fun p hp => h.isFile p (by rwa [hsome] at hp)
-    shape := fun hf p hp => h.shape hf p (by rwa [hsome] at hp)
     prefixClosed := fun p x hp => by rw [hsome] at hp ⊢; exact h.prefixClosed p x hp
     frameMod := by
       intro fr' hfr'
@@ -304,13 +298,12 @@ theorem Inv.pop (h : Inv fixed g rank I (fr :: rest) cache log)
     bindOk := ⟨h.startLogged fr.mod (by simp [hf0]), h.bindOk⟩ }
 
 /-- a missing module was loaded: new tree node `q`, new fiber on top, importer asleep below -/
-theorem Inv.push (h : Inv fixed g rank I frames cache log) (q : Path) (body : List Stmt)
+theorem Inv.push (h : Inv g rank I frames cache log) (q : Path) (body : List Stmt)
     (hq : I q = none) (hne : q ≠ []) (hfile : g.file? q = some body)
-    (hshape : fixed = false → pathOk q = true)
     (hparent : ∀ p x, q = p ++ [x] → (I p).isSome = true)
     (hrank : ∀ fr ∈ frames, rank q < rank fr.mod)
     (I' : Path → Option (Path × Bool)) (hI' : ∀ p, I' p = (I p).or (if q = p then some (q, false) else none)) :
-    Inv fixed g rank I' ({ mod := q, body := expand body } :: frames) cache (.start q q :: log) := by
+    Inv g rank I' ({ mod := q, body := expand body } :: frames) cache (.start q q :: log) := by
   have hmono : ∀ p x, I p = some x → I' p = some x := by
     intro p x hp; rw [hI', hp]; rfl
   have hq' : I' q = some (q, false) := by rw [hI', hq]; simp
@@ -340,12 +333,6 @@ theorem Inv.push (h : Inv fixed g rank I frames cache log) (q : Path) (body : Li
       rcases hcases p x hx with h1 | ⟨h1, _⟩
       · exact h.isFile p (by simp [h1]) hpne
       · rw [h1, hfile]; rfl
-    shape := by
-      intro hf p hp
-      obtain ⟨x, hx⟩ := Option.isSome_iff_exists.mp hp
-      rcases hcases p x hx with h1 | ⟨h1, _⟩
-      · exact h.shape hf p (by simp [h1])
-      · exact Or.inr (h1 ▸ hshape hf)
     prefixClosed := by
       intro p x hp
       obtain ⟨y, hy⟩ := Option.isSome_iff_exists.mp hp
@@ -416,39 +403,20 @@ theorem Inv.push (h : Inv fixed g rank I frames cache log) (q : Path) (body : Li
 /-! ### one machine step -/
 
 /-- the skeleton invariant of a machine state -/
-def SInv (fixed : Bool) (g : Graph) (rank : Path → Nat) (s : St) : Prop :=
-  Inv fixed g rank (info s.mods) s.frames s.cache s.log
+def SInv (g : Graph) (rank : Path → Nat) (s : St) : Prop :=
+  Inv g rank (info s.mods) s.frames s.cache s.log
 
-theorem noD19_pathOk (g : Graph) (h : g.noD19 = true) (me p : Path) (hp : p ∈ importPaths (g.body me)) :
-    pathOk p = true := by
-  obtain ⟨u, hu, _, hpu⟩ := body_unit g me p hp
-  simp only [Graph.noD19, List.all_eq_true, Graph.allImportPaths, List.mem_append, List.mem_flatMap] at h
-  simp only [units, List.mem_cons] at hu
-  rcases hu with rfl | hu
-  · exact h p (Or.inl hpu)
-  · exact h p (Or.inr ⟨u, hu, hpu⟩)
-
-theorem treeOk_of_inv {s : St} (h : SInv fixed g rank s) : TreeOk s.mods where
+theorem treeOk_of_inv {s : St} (h : SInv g rank s) : TreeOk s.mods where
   root := by rw [hasMod_info]; exact h.root
   prefixClosed := by intro p x hp; rw [hasMod_info] at hp ⊢; exact h.prefixClosed p x hp
 
-/-- `import_module` behaves as intended on every reachable state inside the envelope -/
-theorem importModule_char {s : St} (henv : Envelope fixed g) (h : SInv fixed g rank s) (me p : Path)
-    (hp : p ∈ importPaths (g.body me)) : ImportChar g s.mods p (importModule fixed g s.mods p) := by
-  cases fixed with
-  | true => exact importModule_fixed g s.mods p (treeOk_of_inv h)
-  | false =>
-    have hno : g.noD19 = true := by
-      rcases henv with h' | h'
-      · cases h'
-      · exact h'
-    refine importModule_pinned g s.mods p (treeOk_of_inv h) ?_ (noD19_pathOk g hno me p hp)
-    intro q hq
-    rw [hasMod_info] at hq
-    exact h.shape rfl q hq
+/-- `import_module` behaves as intended on every state satisfying the invariant -/
+theorem importModule_char {s : St} (h : SInv g rank s) (p : Path) :
+    ImportChar g s.mods p (importModule g s.mods p) :=
+  importModule_char0 g s.mods p (treeOk_of_inv h)
 
 /-- the statement at the head of the running fiber belongs to its module's body -/
-theorem head_import_path {s : St} (h : SInv fixed g rank s) (fr : Frame) (rest : List Frame) (st : Stmt) (more : List Stmt)
+theorem head_import_path {s : St} (h : SInv g rank s) (fr : Frame) (rest : List Frame) (st : Stmt) (more : List Stmt)
     (hfr : s.frames = fr :: rest) (hb : fr.body = st :: more) (p : Path) (hst : st.importPath? = some p) :
     p ∈ importPaths (g.body fr.mod) := by
   have hsuf := h.suffix fr (by rw [hfr]; exact List.mem_cons_self ..)
@@ -458,12 +426,12 @@ theorem head_import_path {s : St} (h : SInv fixed g rank s) (fr : Frame) (rest :
 
 /-- An import instruction of the running fiber preserves the invariant, and when it hands a
 module to the importer that module's body has completed. -/
-theorem import_inv {s s' : St} (henv : Envelope fixed g) (hacyc : Acyclic g rank) (h : SInv fixed g rank s)
+theorem import_inv {s s' : St} (hacyc : Acyclic g rank) (h : SInv g rank s)
     (fr : Frame) (rest : List Frame) (st : Stmt) (more : List Stmt)
     (hfr : s.frames = fr :: rest) (hb : fr.body = st :: more) (p : Path) (hst : st.importPath? = some p)
-    (heff : ImportEff fixed g s p more s') : SInv fixed g rank s' := by
+    (heff : ImportEff g s p more s') : SInv g rank s' := by
   have hp := head_import_path h fr rest st more hfr hb p hst
-  have hchar := importModule_char henv h fr.mod p hp
+  have hchar := importModule_char h p
   obtain ⟨u, hu, hu1, hpu⟩ := body_unit g fr.mod p hp
   obtain ⟨hpne, hrank⟩ := hacyc u hu p hpu
   rw [hu1] at hrank
@@ -471,7 +439,7 @@ theorem import_inv {s s' : St} (henv : Envelope fixed g) (hacyc : Acyclic g rank
   have hranks := h.ranks
   rw [hfr, List.pairwise_cons] at hranks
   -- a module handed out by the cache or the tree has completed
-  have hdone : ∀ pos cache', CacheStep fixed g s p pos cache' → pos = p ∧ ∃ f, info s.mods p = some (f, true) := by
+  have hdone : ∀ pos cache', CacheStep g s p pos cache' → pos = p ∧ ∃ f, info s.mods p = some (f, true) := by
     intro pos cache' hc
     rcases hc with ⟨_, hl⟩ | ⟨_, hl, _⟩
     · exact h.cacheOk p pos hl
@@ -496,7 +464,7 @@ theorem import_inv {s s' : St} (henv : Envelope fixed g) (hacyc : Acyclic g rank
               rw [h1] at this
               exact Nat.lt_irrefl _ (Nat.lt_trans hlt this)
           · exact hne rfl
-  have hcache : ∀ pos cache', CacheStep fixed g s p pos cache' → Inv fixed g rank (info s.mods) s.frames cache' s.log := by
+  have hcache : ∀ pos cache', CacheStep g s p pos cache' → Inv g rank (info s.mods) s.frames cache' s.log := by
     intro pos cache' hc
     obtain ⟨hpos, f, hf⟩ := hdone pos cache' hc
     rcases hc with ⟨he, _⟩ | ⟨_, _, he⟩
@@ -530,13 +498,7 @@ theorem import_inv {s s' : St} (henv : Envelope fixed g) (hacyc : Acyclic g rank
         | none => rfl
         | some x => simp [hx] at hm
       have hqne := prefixes_ne_nil p q hq
-      refine h.push q body hIq hqne hfile ?_ ?_ ?_ _ ?_
-      · intro hf
-        have hno : g.noD19 = true := by
-          rcases henv with h' | h'
-          · rw [hf] at h'; cases h'
-          · exact h'
-        exact prefixes_pathOk p q (noD19_pathOk g hno fr.mod p hp) hq
+      refine h.push q body hIq hqne hfile ?_ ?_ _ ?_
       · intro p' x hpx
         rw [← hasMod_info]; exact hparent p' x hpx
       · intro fr' hfr'
@@ -567,8 +529,8 @@ theorem info_updMod_done (mods : List ModSt) (q p : Path) :
 
 /-- **Invariant preservation**: every step of the machine, from any state satisfying the skeleton
 invariant, yields a state satisfying it. -/
-theorem step_inv (henv : Envelope fixed g) (hacyc : Acyclic g rank) (s : St) (h : SInv fixed g rank s) :
-    SInv fixed g rank (step fixed g s) := by
+theorem step_inv (hacyc : Acyclic g rank) (s : St) (h : SInv g rank s) :
+    SInv g rank (step g s) := by
   unfold step
   split
   · split
@@ -578,7 +540,7 @@ theorem step_inv (henv : Envelope fixed g) (hacyc : Acyclic g rank) (s : St) (h 
       · rename_i hb
         unfold SInv
         simp only
-        have h' : Inv fixed g rank (info s.mods) (fr :: rest) s.cache s.log := hfr ▸ h
+        have h' : Inv g rank (info s.mods) (fr :: rest) s.cache s.log := hfr ▸ h
         exact h'.pop _ (fun p => info_updMod_done s.mods fr.mod p)
       · rename_i st more hb
         split
@@ -586,20 +548,20 @@ theorem step_inv (henv : Envelope fixed g) (hacyc : Acyclic g rank) (s : St) (h 
         · rename_i me hme
           cases hi : st.isImport with
           | false =>
-            obtain ⟨h1, h2, h3, h4⟩ := execStmt_local fixed g s me st more hi
+            obtain ⟨h1, h2, h3, h4⟩ := execStmt_local g s me st more hi
             unfold SInv
             rw [h1, h2, h3]
             rcases h4 with h4 | h4
             · rw [h4]; exact h
             · rw [h4, (setBody_frames s fr rest more hfr).1]
-              have h' : Inv fixed g rank (info s.mods) (fr :: rest) s.cache s.log := hfr ▸ h
+              have h' : Inv g rank (info s.mods) (fr :: rest) s.cache s.log := hfr ▸ h
               exact h'.advance more (by rw [hb]; exact List.suffix_cons _ _)
           | true =>
             cases st with
             | importWhole p r =>
-              exact import_inv henv hacyc h fr rest _ more hfr hb p rfl (execStmt_importWhole fixed g s me p r more)
+              exact import_inv hacyc h fr rest _ more hfr hb p rfl (execStmt_importWhole g s me p r more)
             | importSym p sy r =>
-              exact import_inv henv hacyc h fr rest _ more hfr hb p rfl (execStmt_importSym fixed g s me p sy r more)
+              exact import_inv hacyc h fr rest _ more hfr hb p rfl (execStmt_importSym g s me p sy r more)
             | _ => simp [Stmt.isImport] at hi
   · exact h
 
@@ -613,7 +575,7 @@ theorem init_info (g : Graph) (p : Path) : info (init g).mods p = if p = [] then
       | cons x xs => rfl
     simp [hp, this]
 
-theorem init_inv (g : Graph) (rank : Path → Nat) (fixed : Bool) : SInv fixed g rank (init g) where
+theorem init_inv (g : Graph) (rank : Path → Nat) : SInv g rank (init g) where
   root := by simp [init_info]
   posFile := by
     intro p f d hp
@@ -625,12 +587,6 @@ theorem init_inv (g : Graph) (rank : Path → Nat) (fixed : Bool) : SInv fixed g
     intro p hp hne
     rw [init_info] at hp
     simp [hne] at hp
-  shape := by
-    intro _ p hp
-    rw [init_info] at hp
-    split at hp <;> simp at hp
-    rename_i heq
-    exact Or.inl heq
   prefixClosed := by
     intro p x hp
     rw [init_info] at hp
@@ -675,12 +631,22 @@ theorem init_inv (g : Graph) (rank : Path → Nat) (fixed : Bool) : SInv fixed g
   bindOk := by simp [init, BindOk, Event.ok]
 
 /-- every reachable state satisfies the invariant -/
-theorem run_inv (henv : Envelope fixed g) (hacyc : Acyclic g rank) (n : Nat) : SInv fixed g rank (run fixed g n) := by
+theorem run_inv (hacyc : Acyclic g rank) (n : Nat) : SInv g rank (run g n) := by
   induction n with
-  | zero => exact init_inv g rank fixed
-  | succ n ih => exact step_inv henv hacyc _ ih
+  | zero => exact init_inv g rank
+  | succ n ih => exact step_inv hacyc _ ih
 
 /-! ### the property theorems -/
+
+/-- **C17_packages_constant.**  For *every* graph (no acyclicity needed) and every number of steps
+the package map is the one of a fresh VM: `std` is the standard library, `self` the tree rooted at
+the main script.  Loading a user module — whatever its name: `std`, `self`, `io`, … — registers no
+package and replaces none. -/
+theorem C17_packages_constant (g : Graph) (n : Nat) : (run g n).packages = initPackages := by
+  induction n with
+  | zero => rfl
+  | succ n ih => rw [run, step_packages, ih]
+
 
 theorem bindOk_finish_start (log : List Event) (h : BindOk log) (p : Path) (hf : Event.finish p ∈ log) :
     ∃ f, Event.start f p ∈ log := by
@@ -731,21 +697,21 @@ machine steps: (1) no module body is started twice; (2) whenever an importer get
 received the module object or one of its symbols — the body of that module had been started exactly
 once and had run to completion before (`BindOk`: the completion event is older than the binding,
 the start older than the completion). -/
-theorem C17_body_once_env (fixed : Bool) (g : Graph) (rank : Path → Nat) (hacyc : Acyclic g rank) (henv : Envelope fixed g) (n : Nat) :
-    (∀ p, List.count (Event.start p p) (run fixed g n).log ≤ 1) ∧
-    (∀ f p, Event.start f p ∈ (run fixed g n).log → f = p) ∧
-    BindOk (run fixed g n).log ∧
-    (∀ ev ∈ (run fixed g n).log, ∀ pos, ev.boundPos? = some pos →
-      Event.finish pos ∈ (run fixed g n).log ∧ List.count (Event.start pos pos) (run fixed g n).log = 1) := by
-  have h := run_inv henv hacyc n
-  have hcount : ∀ p, List.count (Event.start p p) (run fixed g n).log ≤ 1 := fun p =>
+theorem C17_body_once (g : Graph) (rank : Path → Nat) (hacyc : Acyclic g rank) (n : Nat) :
+    (∀ p, List.count (Event.start p p) (run g n).log ≤ 1) ∧
+    (∀ f p, Event.start f p ∈ (run g n).log → f = p) ∧
+    BindOk (run g n).log ∧
+    (∀ ev ∈ (run g n).log, ∀ pos, ev.boundPos? = some pos →
+      Event.finish pos ∈ (run g n).log ∧ List.count (Event.start pos pos) (run g n).log = 1) := by
+  have h := run_inv hacyc n
+  have hcount : ∀ p, List.count (Event.start p p) (run g n).log ≤ 1 := fun p =>
     Nat.le_trans (count_start_le _ p) (nodup_count_le_one _ h.startsNodup p)
   refine ⟨hcount, fun f p hm => (h.logStart f p hm).1, h.bindOk, ?_⟩
   intro ev hev pos hpos
   -- the binding event is in the log, so BindOk gives an older completion
-  have hfin : Event.finish pos ∈ (run fixed g n).log := by
+  have hfin : Event.finish pos ∈ (run g n).log := by
     have hb := h.bindOk
-    generalize (run fixed g n).log = log at hev hb
+    generalize (run g n).log = log at hev hb
     induction log with
     | nil => simp at hev
     | cons e older ih =>
@@ -758,37 +724,17 @@ theorem C17_body_once_env (fixed : Bool) (g : Graph) (rank : Path → Nat) (hacy
   obtain ⟨f, hf⟩ := bindOk_finish_start _ h.bindOk pos hfin
   have hfp := (h.logStart f pos hf).1
   subst hfp
-  have : 0 < List.count (Event.start f f) (run fixed g n).log := List.count_pos_iff.mpr hf
+  have : 0 < List.count (Event.start f f) (run g n).log := List.count_pos_iff.mpr hf
   have := hcount f
   omega
-
-/-- **C17_body_once** for the pinned code, outside D19's signature (the statement above the theorem
-`C17_body_once_env`). -/
-theorem C17_body_once (g : Graph) (rank : Path → Nat) (hacyc : Acyclic g rank) (hno : g.noD19 = true) (n : Nat) :
-    (∀ p, List.count (Event.start p p) (run false g n).log ≤ 1) ∧
-    (∀ f p, Event.start f p ∈ (run false g n).log → f = p) ∧
-    BindOk (run false g n).log ∧
-    (∀ ev ∈ (run false g n).log, ∀ pos, ev.boundPos? = some pos →
-      Event.finish pos ∈ (run false g n).log ∧ List.count (Event.start pos pos) (run false g n).log = 1) :=
-  C17_body_once_env false g rank hacyc (Or.inr hno) n
-
-/-- **C17_body_once** for the repaired tree walk (`path[index]`): import paths of any length, no
-envelope — ready for the day D19 is repaired in the repository. -/
-theorem C17_body_once_repaired (g : Graph) (rank : Path → Nat) (hacyc : Acyclic g rank) (n : Nat) :
-    (∀ p, List.count (Event.start p p) (run true g n).log ≤ 1) ∧
-    (∀ f p, Event.start f p ∈ (run true g n).log → f = p) ∧
-    BindOk (run true g n).log ∧
-    (∀ ev ∈ (run true g n).log, ∀ pos, ev.boundPos? = some pos →
-      Event.finish pos ∈ (run true g n).log ∧ List.count (Event.start pos pos) (run true g n).log = 1) :=
-  C17_body_once_env true g rank hacyc (Or.inl rfl) n
 
 /-- the fiber structure behind "before its importer continues": only the head of `frames` runs, and
 a module whose body has not completed is on that stack, strictly below every module it (transitively)
 started — so no importer executes anything while a module it waits for is still running. -/
-theorem C17_importer_waits (g : Graph) (rank : Path → Nat) (hacyc : Acyclic g rank) (hno : g.noD19 = true) (n : Nat) :
-    (∀ p f, info (run false g n).mods p = some (f, false) → p ∈ (run false g n).frames.map (·.mod)) ∧
-    (run false g n).frames.Pairwise (fun c p => rank c.mod < rank p.mod) := by
-  have h := run_inv (fixed := false) (Or.inr hno) hacyc n
+theorem C17_importer_waits (g : Graph) (rank : Path → Nat) (hacyc : Acyclic g rank) (n : Nat) :
+    (∀ p f, info (run g n).mods p = some (f, false) → p ∈ (run g n).frames.map (·.mod)) ∧
+    (run g n).frames.Pairwise (fun c p => rank c.mod < rank p.mod) := by
+  have h := run_inv hacyc n
   exact ⟨h.notDone, h.ranks⟩
 
 /-! ### exports -/
@@ -851,15 +797,15 @@ theorem lookup_upsert {β : Type} (n : String) (b : β) (l : List (String × β)
 /-- **C17_exports_exact (whole / renamed import).**  When the instruction obtains the module at
 `pos`, the importer's variable is bound to an object whose fields are exactly `instanceFields` of
 that module *at that time* (see `instanceFields_exact`), and this is what the trace records. -/
-theorem C17_exports_exact_whole (fixed : Bool) (g : Graph) (s s1 : St) (me m : ModSt) (p pos : Path) (r : Option String)
+theorem C17_exports_exact_whole (g : Graph) (s s1 : St) (me m : ModSt) (p pos : Path) (r : Option String)
     (more : List Stmt) (hme : getMod s.mods me.pos = some me)
-    (ht : importTarget fixed g s p = (s1, some pos)) (hm : getMod s1.mods pos = some m) :
-    let s' := execStmt fixed g s me (.importWhole p r) more
+    (ht : importTarget g s p = (s1, some pos)) (hm : getMod s1.mods pos = some m) :
+    let s' := execStmt g s me (.importWhole p r) more
     let name := r.getD (p.getLast?.getD "self")
     s'.log = .boundObj me.pos name pos m.instanceFields :: s1.log ∧
     ∃ me', getMod s'.mods me.pos = some me' ∧ lookup name me'.syms = some (some (.obj m.name m.instanceFields)) := by
   have hmods : s1.mods = s.mods := by
-    rcases importTarget_cases fixed g s p with ⟨_, _, h2⟩ | ⟨_, _, _, h2⟩ | ⟨_, _, _, _, _, h2⟩ | ⟨_, h2⟩ <;>
+    rcases importTarget_cases g s p with ⟨_, _, h2⟩ | ⟨_, _, _, h2⟩ | ⟨_, _, _, _, _, h2⟩ | ⟨_, h2⟩ <;>
       rw [h2] at ht <;> cases ht <;> rfl
   simp only [execStmt, ht, hm]
   constructor
@@ -871,16 +817,16 @@ theorem C17_exports_exact_whole (fixed : Bool) (g : Graph) (s s1 : St) (me m : M
 
 /-- **C17_exports_exact (selected symbol).**  The importer receives the current value of the
 module's symbol of that name, and only if the name is exported. -/
-theorem C17_exports_exact_symbol (fixed : Bool) (g : Graph) (s s1 : St) (me m : ModSt) (p pos : Path) (sym : String)
+theorem C17_exports_exact_symbol (g : Graph) (s s1 : St) (me m : ModSt) (p pos : Path) (sym : String)
     (r : Option String) (v : Val) (more : List Stmt) (hme : getMod s.mods me.pos = some me)
-    (ht : importTarget fixed g s p = (s1, some pos)) (hm : getMod s1.mods pos = some m)
+    (ht : importTarget g s p = (s1, some pos)) (hm : getMod s1.mods pos = some m)
     (hx : m.exported? sym = some v) :
-    let s' := execStmt fixed g s me (.importSym p sym r) more
+    let s' := execStmt g s me (.importSym p sym r) more
     (sym ∈ m.exports ∧ lookup sym m.syms = some (some (.val v))) ∧
     s'.log = .boundSym me.pos (r.getD sym) pos sym v :: s1.log ∧
     ∃ me', getMod s'.mods me.pos = some me' ∧ lookup (r.getD sym) me'.syms = some (some (.val v)) := by
   have hmods : s1.mods = s.mods := by
-    rcases importTarget_cases fixed g s p with ⟨_, _, h2⟩ | ⟨_, _, _, h2⟩ | ⟨_, _, _, _, _, h2⟩ | ⟨_, h2⟩ <;>
+    rcases importTarget_cases g s p with ⟨_, _, h2⟩ | ⟨_, _, _, h2⟩ | ⟨_, _, _, _, _, h2⟩ | ⟨_, h2⟩ <;>
       rw [h2] at ht <;> cases ht <;> rfl
   simp only [execStmt, ht, hm, hx]
   refine ⟨(exported?_exact m sym v).mp hx, ?_, ?_⟩
@@ -924,8 +870,8 @@ theorem xinfo_of_info (mods : List ModSt) (p f : Path) (d : Bool) (h : info mods
   | none => simp [hm] at h
   | some m => simp [hm] at h; exact ⟨m.exports, by simp [h.2]⟩
 
-theorem step_xinv (henv : Envelope fixed g) (s : St) (h : SInv fixed g rank s)
-    (hx : XInv g (xinfo s.mods) s.frames) : XInv g (xinfo (step fixed g s).mods) (step fixed g s).frames := by
+theorem step_xinv (s : St) (h : SInv g rank s)
+    (hx : XInv g (xinfo s.mods) s.frames) : XInv g (xinfo (step g s).mods) (step g s).frames := by
   unfold step
   split
   · split
@@ -993,7 +939,7 @@ theorem step_xinv (henv : Envelope fixed g) (s : St) (h : SInv fixed g rank s)
               · exact hx.finished p ex hp
           cases hi : st.isImport with
           | false =>
-            rcases execStmt_local_x fixed g s me st more hi hme' with ⟨h1, h2⟩ | ⟨h1, h2⟩
+            rcases execStmt_local_x g s me st more hi hme' with ⟨h1, h2⟩ | ⟨h1, h2⟩
             · rw [h1, h2]; exact hx
             · exact hadv _ _ h1 h2
           | true =>
@@ -1001,7 +947,7 @@ theorem step_xinv (henv : Envelope fixed g) (s : St) (h : SInv fixed g rank s)
               cases st <;> simp [Stmt.isImport] at hi <;> exact ⟨_, rfl⟩
             have hnoexp : st.exportedName? = none := by
               cases st <;> simp [Stmt.isImport] at hi <;> rfl
-            rcases execStmt_import_x fixed g s me st more p hst hi with ⟨h1, h2⟩ | ⟨h1, h2⟩ | ⟨q, file, body, hc, h1, h2⟩
+            rcases execStmt_import_x g s me st more p hst hi with ⟨h1, h2⟩ | ⟨h1, h2⟩ | ⟨q, file, body, hc, h1, h2⟩
             · rw [h1, h2]; exact hx
             · refine hadv _ _ h1 ?_
               intro p'
@@ -1011,7 +957,7 @@ theorem step_xinv (henv : Envelope fixed g) (s : St) (h : SInv fixed g rank s)
               · rfl
             · -- a new module starts with an empty export table
               have hp := head_import_path h fr rest st more hfr hb p hst
-              have hchar := importModule_char henv h fr.mod p hp
+              have hchar := importModule_char h p
               rw [hc] at hchar
               cases hchar with
               | compiled _ _ hq hm hfile _ =>
@@ -1052,21 +998,21 @@ theorem init_xinv (g : Graph) : XInv g (xinfo (init g).mods) (init g).frames := 
     simp only [init, xinfo, getMod, ModSt.fresh, List.find?_cons, List.find?_nil] at hp
     split at hp <;> simp at hp
 
-theorem run_xinv (henv : Envelope fixed g) (hacyc : Acyclic g rank) (n : Nat) :
-    XInv g (xinfo (run fixed g n).mods) (run fixed g n).frames := by
+theorem run_xinv (hacyc : Acyclic g rank) (n : Nat) :
+    XInv g (xinfo (run g n).mods) (run g n).frames := by
   induction n with
   | zero => exact init_xinv g
-  | succ n ih => exact step_xinv henv _ (run_inv henv hacyc n) ih
+  | succ n ih => exact step_xinv _ (run_inv hacyc n) ih
 
 /-- **C17_exports_exact.**  In every reachable state, a module whose body has completed exports
 exactly the names its file declares with `export` (in order) — so by `instanceFields_exact` /
 `exported?_exact` an import object's fields, and the symbols a selected import can obtain, are
 exactly those names with the module's current values; nothing private, nothing the module itself
 imported.  (Every module handed to an importer has completed: `C17_body_once`.) -/
-theorem C17_exports_exact (g : Graph) (rank : Path → Nat) (hacyc : Acyclic g rank) (hno : g.noD19 = true) (n : Nat)
-    (p : Path) (m : ModSt) (hm : getMod (run false g n).mods p = some m) (hdone : m.done = true) :
+theorem C17_exports_exact (g : Graph) (rank : Path → Nat) (hacyc : Acyclic g rank) (n : Nat)
+    (p : Path) (m : ModSt) (hm : getMod (run g n).mods p = some m) (hdone : m.done = true) :
     m.exports = exportedNames (g.body p) := by
-  have hx := run_xinv (fixed := false) (rank := rank) (Or.inr hno) hacyc n
+  have hx := run_xinv (rank := rank) hacyc n
   have := hx.finished p m.exports (by simp [xinfo, hm, hdone])
   rw [this]
   -- `expand` only rewrites selected-symbol imports, which export nothing
@@ -1090,11 +1036,11 @@ theorem C17_exports_exact (g : Graph) (rank : Path → Nat) (hacyc : Acyclic g r
 
 /-- **C17_errors (name not exported).**  Importing a name the module did not export raises the
 import error; no symbol of the importer is bound, nothing is logged, the fiber does not advance. -/
-theorem C17_errors_not_exported (fixed : Bool) (g : Graph) (s s1 : St) (me m : ModSt) (p pos : Path) (sym : String)
+theorem C17_errors_not_exported (g : Graph) (s s1 : St) (me m : ModSt) (p pos : Path) (sym : String)
     (r : Option String) (more : List Stmt)
-    (ht : importTarget fixed g s p = (s1, some pos)) (hm : getMod s1.mods pos = some m)
+    (ht : importTarget g s p = (s1, some pos)) (hm : getMod s1.mods pos = some m)
     (hx : sym ∉ m.exports) :
-    execStmt fixed g s me (.importSym p sym r) more =
+    execStmt g s me (.importSym p sym r) more =
       s1.fail "ImportError" s!"Symbol {sym} not exported from module {m.name}" := by
   have : m.exported? sym = none := by
     cases h : m.exported? sym with
@@ -1125,16 +1071,19 @@ theorem closed_prefix (I : Path → Option (Path × Bool)) (hc : ∀ p x, (I (p 
 `import self.a.b`) does not exist, then in every reachable state the instruction yields no value:
 it raises `ImportError: Module self.a.b not found`, or — when an existing shorter prefix is not yet
 loaded — first runs that prefix's body and retries. -/
-theorem C17_errors_missing_module (g : Graph) (rank : Path → Nat) (hacyc : Acyclic g rank) (hno : g.noD19 = true) (n : Nat)
+theorem C17_errors_missing_module (g : Graph) (rank : Path → Nat) (hacyc : Acyclic g rank) (n : Nat)
     (fr : Frame) (rest : List Frame) (st : Stmt) (more : List Stmt) (p : Path)
-    (hfr : (run false g n).frames = fr :: rest) (hb : fr.body = st :: more) (hst : st.importPath? = some p)
+    (hfr : (run g n).frames = fr :: rest) (hb : fr.body = st :: more) (hst : st.importPath? = some p)
     (hmiss : ∃ q ∈ prefixes p, g.file? q = none) :
-    (importTarget false g (run false g n) p).2 = none ∧
-    ((importTarget false g (run false g n) p).1.status = .error "ImportError" s!"Module {dotted p} not found" ∨
+    (importTarget g (run g n) p).2 = none ∧
+    ((importTarget g (run g n) p).1.status = .error "ImportError" s!"Module {dotted p} not found" ∨
      ∃ q body, q ∈ prefixes p ∧ g.file? q = some body ∧
-       (importTarget false g (run false g n) p).1.frames = { mod := q, body := expand body } :: (run false g n).frames) := by
-  have h := run_inv (fixed := false) (Or.inr hno) hacyc n
-  generalize run false g n = s at *
+       (importTarget g (run g n) p).1.frames = { mod := q, body := expand body } :: (run g n).frames) := by
+  have h := run_inv hacyc n
+  have hpk : lookup "self" (run g n).packages = some PkgRoot.self := by
+    rw [C17_packages_constant g n]
+    rfl
+  generalize run g n = s at *
   obtain ⟨q0, hq0, hq0f⟩ := hmiss
   have hIp : (info s.mods p).isSome = false := by
     cases hx : (info s.mods p).isSome with
@@ -1151,11 +1100,11 @@ theorem C17_errors_missing_module (g : Graph) (rank : Path → Nat) (hacyc : Acy
       obtain ⟨_, f, hf⟩ := h.cacheOk p pos hl
       simp [hf] at hIp
   have hp := head_import_path h fr rest st more hfr hb p hst
-  have hchar := importModule_char (Or.inr hno) h fr.mod p hp
+  have hchar := importModule_char h p
   unfold importTarget
-  rw [hcache]
+  rw [hcache, hpk]
   simp only
-  cases hchar' : importModule false g s.mods p with
+  cases hchar' : importModule g s.mods p with
   | loaded pos =>
     rw [hchar'] at hchar
     cases hchar with
@@ -1167,7 +1116,7 @@ theorem C17_errors_missing_module (g : Graph) (rank : Path → Nat) (hacyc : Acy
   | notFound => exact ⟨rfl, Or.inl rfl⟩
   | panic msg => rw [hchar'] at hchar; cases hchar
 
-/-! ### inside the envelope the loader never reaches `todo!()` / `unwrap` -/
+/-! ### the loader never reaches `todo!()` / `unwrap` -/
 
 theorem info_some_getMod (mods : List ModSt) (p : Path) (h : (info mods p).isSome = true) : ∃ m, getMod mods p = some m := by
   unfold info at h
@@ -1175,8 +1124,8 @@ theorem info_some_getMod (mods : List ModSt) (p : Path) (h : (info mods p).isSom
   | none => simp [hm] at h
   | some m => exact ⟨m, rfl⟩
 
-theorem step_no_panic (henv : Envelope fixed g) (hacyc : Acyclic g rank) (s : St) (h : SInv fixed g rank s)
-    (hs : s.status.isPanic = false) : (step fixed g s).status.isPanic = false := by
+theorem step_no_panic (hacyc : Acyclic g rank) (s : St) (h : SInv g rank s)
+    (hs : s.status.isPanic = false) : (step g s).status.isPanic = false := by
   unfold step
   split
   · split
@@ -1191,17 +1140,17 @@ theorem step_no_panic (henv : Envelope fixed g) (hacyc : Acyclic g rank) (s : St
         · rename_i hnone; rw [hme0] at hnone; cases hnone
         · rename_i me hme
           cases hi : st.isImport with
-          | false => exact execStmt_local_status fixed g s me st more hi hs
+          | false => exact execStmt_local_status g s me st more hi hs
           | true =>
-            cases hpanic : (execStmt fixed g s me st more).status.isPanic with
+            cases hpanic : (execStmt g s me st more).status.isPanic with
             | false => rfl
             | true =>
               exfalso
               obtain ⟨p, hst⟩ : ∃ p, st.importPath? = some p := by
                 cases st <;> simp [Stmt.isImport] at hi <;> exact ⟨_, rfl⟩
               have hp := head_import_path h fr rest st more hfr hb p hst
-              have hchar := importModule_char henv h fr.mod p hp
-              rcases execStmt_import_panic fixed g s me st more p hst hi hs hpanic with ⟨msg, hm⟩ | ⟨pos, hsrc, hnone⟩
+              have hchar := importModule_char h p
+              rcases execStmt_import_panic g s me st more p hst hi hs hpanic with ⟨msg, hm⟩ | ⟨pos, hsrc, hnone⟩
               · rw [hm] at hchar; cases hchar
               · rcases hsrc with hl | hl
                 · obtain ⟨hpos, f, hf⟩ := h.cacheOk p pos hl
@@ -1215,41 +1164,140 @@ theorem step_no_panic (henv : Envelope fixed g) (hacyc : Acyclic g rank) (s : St
                     rw [hm'] at hnone; cases hnone
   · exact hs
 
-/-- **C17_no_panic.**  For every acyclic graph outside D19's signature and every number of steps,
-the model never reaches a host panic: `find_missing_module`'s slip is only reachable through import
-paths of three or more segments or of the form `self.a.a` (compare `C17_witness_D19*`). -/
-theorem C17_no_panic (g : Graph) (rank : Path → Nat) (hacyc : Acyclic g rank) (hno : g.noD19 = true) (n : Nat) :
-    (run false g n).status.isPanic = false := by
+/-- **C17_no_panic.**  For every acyclic graph — import paths of any length — and every number of
+steps, the model never reaches a host panic (`todo!()` on `ModuleAlreadyExists`, `unwrap` of the
+empty remainder, `split_at` beyond the path). -/
+theorem C17_no_panic (g : Graph) (rank : Path → Nat) (hacyc : Acyclic g rank) (n : Nat) :
+    (run g n).status.isPanic = false := by
   induction n with
   | zero => rfl
-  | succ n ih => exact step_no_panic (Or.inr hno) hacyc _ (run_inv (Or.inr hno) hacyc n) ih
+  | succ n ih => exact step_no_panic hacyc _ (run_inv hacyc n) ih
 
-/-- the repaired walk never panics, whatever the import paths -/
-theorem C17_no_panic_repaired (g : Graph) (rank : Path → Nat) (hacyc : Acyclic g rank) (n : Nat) :
-    (run true g n).status.isPanic = false := by
-  induction n with
-  | zero => rfl
-  | succ n ih => exact step_no_panic (Or.inl rfl) hacyc _ (run_inv (Or.inl rfl) hacyc n) ih
+/-! ### packages: an import path names what the source says -/
 
-/-- `C17_exports_exact` for the repaired walk, without envelope -/
-theorem C17_exports_exact_repaired (g : Graph) (rank : Path → Nat) (hacyc : Acyclic g rank) (n : Nat)
-    (p : Path) (m : ModSt) (hm : getMod (run true g n).mods p = some m) (hdone : m.done = true) :
-    m.exports = exportedNames (expand (g.body p)) :=
-  (run_xinv (fixed := true) (rank := rank) (Or.inl rfl) hacyc n).finished p m.exports (by simp [xinfo, hm, hdone])
+/-- the table the translator reads from `create_std_lib`'s sources is the tree of the model -/
+theorem C17_stdModules_gen :
+    (∀ p ∈ Gen.stdModules, p ∈ stdModules) ∧ (∀ p ∈ stdModules, p ∈ Gen.stdModules) := by decide
+
+/-- the places of laythe_vm that write the package map: `Vm::new` (the standard library) and
+`Vm::main_module` (package `self`), both through `add_package`; `Vm::module` — called by
+`load_missing_module` for every imported file — is not among them.  The model's `init` installs
+exactly these two entries and `step` has no write (`step_packages`). -/
+theorem C17_package_writes_gen :
+    Gen.packageWriteSites = [("new", "add_package(std_lib)"), ("add_package", "packages.insert(package.name(), package)"),
+                             ("main_module", "add_package(package)")] ∧
+    Gen.moduleCallSites = [("main_module", "SELF"), ("load_missing_module", "&module_name")] ∧
+    Gen.mainModuleCallSites = ["repl", "run"] ∧
+    Gen.missingModuleArms = [("ImportError::ModuleDoesNotExist if &*import.package() == SELF", "load_missing_module"),
+                             ("ImportError::ModuleDoesNotExist", "ImportResult::NotFound")] ∧
+    initPackages.map (·.1) = ["std", "self"] := by
+  decide
+
+/-- **C17_foreign_resolution.**  In every reachable state of every graph — in particular after user
+modules named `std`, `io`, `math`, or named like the package of the import have been loaded — an
+import `pkg.p` with `pkg ≠ self` is resolved against the standard library and nothing else:
+`std.p` for a module `p` of the library binds the library's module object, the running fiber
+advances, no module body is started, the tree of user modules, the cache and the trace are
+untouched; every other such import (a module the library does not have, or any other package name,
+e.g. the bare name of a loaded user module) raises `ImportError: Module pkg.p not found`. -/
+theorem C17_foreign_resolution (g : Graph) (n : Nat) (me : ModSt) (pkg : ForeignPkg) (path : Path) (name : String)
+    (more : List Stmt) :
+    let s := run g n
+    let s' := execStmt g s me (.importPkg pkg path name) more
+    (pkg.val = "std" ∧ stdHas path = true →
+      s' = { s.setBody more with
+             mods := updMod s.mods me.pos (fun x => x.setSym name (.obj (path.getLast?.getD "std") [])) } ∧
+      info s'.mods = info s.mods) ∧
+    (¬ (pkg.val = "std" ∧ stdHas path = true) →
+      s' = s.fail "ImportError" s!"Module {dottedPkg pkg.val path} not found") := by
+  intro s s'
+  have hpk : s.packages = initPackages := C17_packages_constant g n
+  have hres := importForeign_init s.mods pkg path
+  constructor
+  · intro hstd
+    have : importForeign s.packages s.mods pkg.val path = .std path := by rw [hpk, hres, if_pos hstd]
+    have hs' : s' = { s.setBody more with
+        mods := updMod s.mods me.pos (fun x => x.setSym name (.obj (path.getLast?.getD "std") [])) } := by
+      show execStmt g s me (.importPkg pkg path name) more = _
+      simp only [execStmt, this]
+      rw [hstd.1]
+    refine ⟨hs', ?_⟩
+    rw [hs']
+    simp only [(setBody_eff s more).1]
+    exact info_updMod _ _ _ (fun m => setSym_skel m _ _)
+  · intro hn
+    have : importForeign s.packages s.mods pkg.val path = .notFound := by rw [hpk, hres, if_neg hn]
+    show execStmt g s me (.importPkg pkg path name) more = _
+    simp only [execStmt, this]
+
+/-- the standard library's tree is prefix closed, so membership is what `Module::import`'s walk computes -/
+theorem stdModules_prefixClosed : ∀ p ∈ stdModules, ∀ q ∈ prefixes p, q ∈ stdModules := by decide
+
+/-- **C17_self_resolution.**  In every reachable state of an acyclic graph an import `self.p` is
+resolved in the tree of user modules only: the module it hands out sits at tree position `p`, was
+loaded from the file of path `p` (`p = ["std", "io"]` is `std/io.lay`, never the library's `io`)
+and its body has completed. -/
+theorem C17_self_resolution (g : Graph) (rank : Path → Nat) (hacyc : Acyclic g rank) (n : Nat)
+    (fr : Frame) (rest : List Frame) (st : Stmt) (more : List Stmt) (p pos : Path) (s1 : St)
+    (hfr : (run g n).frames = fr :: rest) (hb : fr.body = st :: more) (hst : st.importPath? = some p)
+    (ht : importTarget g (run g n) p = (s1, some pos)) :
+    pos = p ∧ info (run g n).mods p = some (p, true) ∧ (g.file? p).isSome = true := by
+  have h := run_inv hacyc n
+  generalize run g n = s at *
+  have hp := head_import_path h fr rest st more hfr hb p hst
+  obtain ⟨u, hu, hu1, hpu⟩ := body_unit g fr.mod p hp
+  obtain ⟨hpne, hrank⟩ := hacyc u hu p hpu
+  rw [hu1] at hrank
+  have hranks := h.ranks
+  rw [hfr, List.pairwise_cons] at hranks
+  have hdone : pos = p ∧ ∃ f, info s.mods p = some (f, true) := by
+    rcases importTarget_cases g s p with ⟨pos', h1, h2⟩ | ⟨pos', h1, h2, h3⟩ | ⟨_, _, _, _, _, h3⟩ | ⟨_, h3⟩
+    · rw [h2] at ht; cases ht; exact h.cacheOk p pos h1
+    · rw [h3] at ht; cases ht
+      have hchar := importModule_char h p
+      rw [h2] at hchar
+      cases hchar with
+      | loaded hm =>
+        refine ⟨rfl, ?_⟩
+        rw [hasMod_info] at hm
+        obtain ⟨⟨f, d⟩, hx⟩ := Option.isSome_iff_exists.mp hm
+        cases d with
+        | true => exact ⟨f, hx⟩
+        | false =>
+          exfalso
+          have hin := h.notDone p f hx
+          rw [hfr] at hin
+          have hfile := h.isFile p hm hpne
+          rcases hrank p (self_mem_prefixes p hpne) hfile with hlt | ⟨_, hne⟩
+          · simp only [List.map_cons, List.mem_cons, List.mem_map] at hin
+            rcases hin with h1 | ⟨fr', hfr', h1⟩
+            · rw [h1] at hlt; exact Nat.lt_irrefl _ hlt
+            · have := hranks.1 fr' hfr'
+              rw [h1] at this
+              exact Nat.lt_irrefl _ (Nat.lt_trans hlt this)
+          · exact hne rfl
+    · rw [h3] at ht; cases ht
+    · rw [h3] at ht; cases ht
+  obtain ⟨hpos, f, hf⟩ := hdone
+  have hfp := h.posFile p f true hf
+  subst hfp
+  exact ⟨hpos, hf, h.isFile _ (by simp [hf]) hpne⟩
 
 /-- What is *not* proved: liveness.  The theorems above are safety statements over every reachable
 state (no body twice, no binding before completion, exports exact, errors instead of values, no
-panic); that every run of an acyclic graph *ends* (status `done` or `error` after finitely many
-steps, i.e. every import eventually completes) is only observed: the driver reports `fuel` if 100000
-steps do not suffice, which the graphs stream would flag as a disagreement.  Likewise the equality of
-the printed output with the run-once/export-map reference (`spec_run` in vlib/props/c17.py) is judged
-on the stream, not proved. -/
+panic, packages constant); that every run of an acyclic graph *ends* (status `done` or `error` after
+finitely many steps, i.e. every import eventually completes) is only observed: the driver reports
+`fuel` if 100000 steps do not suffice, which the graphs stream would flag as a disagreement.
+Likewise the equality of the printed output with the run-once/export-map reference (`spec_run` in
+vlib/props/c17.py) is judged on the stream, not proved.  Programs that start other fibers before an
+import are outside the model (known finding DC17.2: a completing child wakes a sleeping importer). -/
 def C17_full : Prop :=
-  ∀ (g : Graph) (rank : Path → Nat), Acyclic g rank → g.noD19 = true → ∃ n, (run false g n).status ≠ .running
+  ∀ (g : Graph) (rank : Path → Nat), Acyclic g rank → ∃ n, (run g n).status ≠ .running
 
-/-! ### D19 on the model, and non-vacuity -/
+/-! ### regression inputs of repaired defects, and non-vacuity -/
 
-/-- the committed witness `known_findings/D19-nested-import/` -/
+/-- the witness of the repaired finding D19 (`corpus/C17/06_d19_three_level.json`): a three-level
+import loads `a.lay`, `a/b.lay`, `a/b/c.lay` in turn and the run completes -/
 def d19Graph : Graph :=
   { main := [.importWhole ["a", "b"] none, .emit "main1" (.field "b" "y"),
              .importWhole ["a", "b", "c"] none, .emit "main2" (.field "c" "z")],
@@ -1257,26 +1305,56 @@ def d19Graph : Graph :=
               (["a", "b"], [.mark "b_body", .decl true .let_ "y" 2]),
               (["a", "b", "c"], [.mark "c_body", .decl true .let_ "z" 3])] }
 
-/-- **C17_witness_D19.**  On a three-level import the pinned tree walk looks up `path[0]` again,
-reloads `a/b.lay`, and `insert_module` reports `ModuleAlreadyExists` → `todo!()`: the model reaches
-the host panic after the bodies of `a` and `a/b` ran (and `c` never runs) … -/
-theorem C17_witness_D19 :
-    (run false d19Graph 11).status = .panic "not yet implemented" ∧
-    (run false d19Graph 11).log.filterMap Event.startPos? = [["a", "b"], ["a"], []] := by
+example :
+    (run d19Graph 18).status = .done ∧
+    (run d19Graph 18).log.filterMap Event.startPos? = [["a", "b", "c"], ["a", "b"], ["a"], []] ∧
+    (run d19Graph 18).out = ["a_body", "b_body", "main1=2", "c_body", "main2=3"] := by
   decide
 
-/-- … while the repaired walk (`path[index]`) loads `a/b/c.lay` and the run completes. -/
-theorem C17_witness_D19_repaired :
-    (run true d19Graph 18).status = .done ∧
-    (run true d19Graph 18).log.filterMap Event.startPos? = [["a", "b", "c"], ["a", "b"], ["a"], []] := by
+/-- the second shape of D19 (`self.a.a` then `self.a.b`) runs to completion as well -/
+example :
+    (run { main := [.importWhole ["a", "a"] none, .importWhole ["a", "b"] none],
+           files := [(["a"], []), (["a", "a"], []), (["a", "b"], [])] } 10).status = .done := by
   decide
 
-/-- the second shape of D19: after `import self.a.a`, `import self.a.b` walks `a → a/a`, splits the
-path at its end and unwraps the empty remainder -/
-theorem C17_witness_D19_repeat :
-    (run false { main := [.importWhole ["a", "a"] none, .importWhole ["a", "b"] none],
-                 files := [(["a"], []), (["a", "a"], []), (["a", "b"], [])] } 6).status =
-      .panic "called `Option::unwrap()` on a `None` value" := by
+def std : ForeignPkg := ⟨"std", by decide⟩
+
+/-- the witness of the repaired finding D25-module-shadows-package
+(`corpus/C17/07_d25_user_module_named_std.json`) with a few more package-like names: user files
+`std.lay`, `std/io.lay` and `io.lay`; the script imports the user modules through `self`, the
+library through `std`, and the bare names `io` and `q.io` of user modules as packages -/
+def shadowGraph (last : Stmt) : Graph :=
+  { main := [.importWhole ["std"] (some "s"), .emit "m1" (.field "s" "q"),
+             .importPkg std ["io"] "io", .emit "m2" (.field "io" "q"),
+             .importWhole ["std", "io"] (some "uio"), .emit "m3" (.field "uio" "q"),
+             .importWhole ["io"] (some "tio"), .emit "m4" (.field "tio" "q"),
+             .importPkg std ["io", "stdio"] "stdio", .importPkg std [] "lib", .mark "ok", last],
+    files := [(["std"], [.mark "<std", .decl true .let_ "q" 1, .mark ">std"]),
+              (["std", "io"], [.mark "<std/io", .decl true .let_ "q" 2, .mark ">std/io"]),
+              (["io"], [.mark "<io", .decl true .let_ "q" 3, .mark ">io"])] }
+
+example :
+    (run (shadowGraph (.mark "end")) 40).status = .done ∧
+    (run (shadowGraph (.mark "end")) 40).out =
+      ["<std", ">std", "m1=1", "m2=!", "<std/io", ">std/io", "m3=2", "<io", ">io", "m4=3", "ok", "end"] ∧
+    (run (shadowGraph (.mark "end")) 40).packages = initPackages := by
+  decide
+
+/-- the graph with files named like the library and its modules meets the hypothesis of the
+run-once theorems -/
+example : Acyclic (shadowGraph (.mark "end")) (fun p => if p = [] then 5 else 1) := by
+  intro u hu p hp
+  simp only [units, shadowGraph, List.mem_cons, List.mem_nil_iff, or_false] at hu
+  rcases hu with rfl | rfl | rfl | rfl <;>
+    simp only [importPaths, List.filterMap_cons, List.filterMap_nil, Stmt.importPath?, List.mem_cons,
+      List.mem_nil_iff, or_false] at hp <;>
+    (try rcases hp with rfl | rfl | rfl) <;> (try cases hp) <;> decide
+
+/-- a loaded user module is not a package: `import io.x` / `import std.io.q` fail -/
+example :
+    (run (shadowGraph (.importPkg ⟨"io", by decide⟩ [] "z")) 40).status = .error "ImportError" "Module io not found" ∧
+    (run (shadowGraph (.importPkg std ["io", "q"] "z")) 40).status = .error "ImportError" "Module std.io.q not found" ∧
+    (run (shadowGraph (.importPkg std ["std"] "z")) 40).status = .error "ImportError" "Module std.std not found" := by
   decide
 
 /-- a diamond with a nested module, repeated imports in all three forms, private state behind an
@@ -1300,8 +1378,7 @@ def demoRank : Path → Nat
   | _ => 0
 
 /-- the hypotheses of the theorems are met by a non-trivial graph … -/
-example : Acyclic demoGraph demoRank ∧ demoGraph.noD19 = true := by
-  refine ⟨?_, by decide⟩
+example : Acyclic demoGraph demoRank := by
   intro u hu p hp
   simp only [units, demoGraph, List.mem_cons, List.mem_nil_iff, or_false] at hu
   rcases hu with rfl | rfl | rfl | rfl | rfl <;>
@@ -1313,8 +1390,8 @@ example : Acyclic demoGraph demoRank ∧ demoGraph.noD19 = true := by
 /-- … on which the model runs to completion with every body run once, the accessor observed through
 two importers, the later snapshot seeing the bumped counter and the private symbol invisible. -/
 example :
-    (run false demoGraph 60).status = .done ∧
-    (run false demoGraph 60).out =
+    (run demoGraph 60).status = .done ∧
+    (run demoGraph 60).out =
       ["<main", "<a", "<sh", ">sh", "<u", ">u", ">a", "<b", "b1=1", ">b", "t1=7", "t2=2", "t3=2", "t4=!", ">main"] := by
   decide
 
